@@ -159,6 +159,7 @@ func VerifH_Handle_Chain() {
 				}
 				verifAssert(p.typ == 3, "HANDLE.reissued_kind")
 				verifAssert(!relSent, "C12.no_publish_after_pubrel")
+				verifAssert(!stage2, "C12.retry_resumes_at_pubrel_after_pubrec")
 				if level == 0 && pi == 0 {
 					id0 = p.id
 					verifAssert(p.id != 0, "C15.id_nonzero")
